@@ -88,6 +88,26 @@ func genBadFrame(r *Rng, ts []pduType, seq int32) []byte {
 	}
 }
 
+// genOversizeFrame: frames longer than the 4096-octet buffers used while decoding, of which the decoder
+// consumes only a prefix.  bad=true: submit_sm whose body has no terminator at all (undecodable, generic_nack);
+// bad=false: deliver_sm with a non-zero command_status and a body (decoding stops after the header: a well-formed PDU).
+func genOversizeFrame(r *Rng, seq int32, bad bool) []byte {
+	n := 16 + 4200 + r.Intn(6000)
+	f := make([]byte, n)
+	for i := 16; i < n; i++ {
+		f[i] = 1 + byte((i*31+n)%255)
+	}
+	binary.BigEndian.PutUint32(f[0:4], uint32(n))
+	if bad {
+		binary.BigEndian.PutUint32(f[4:8], 4)
+	} else {
+		binary.BigEndian.PutUint32(f[4:8], 5)
+		binary.BigEndian.PutUint32(f[8:12], uint32(1+r.Intn(200)))
+	}
+	binary.BigEndian.PutUint32(f[12:16], uint32(seq))
+	return f
+}
+
 // genFatalFrame: a frame after which Watch cannot go on (unknown command_id or impossible command_length).
 func genFatalFrame(r *Rng, seq int32) []byte {
 	f := make([]byte, 16)
